@@ -393,6 +393,7 @@ class NetworkService(ModelElement):
         iff = Interface(name=name, node_id=node_id, parent_node_id=self.node_id,
                         etype=ElementType.NEW, topo=self.topo, itype=itype,
                         **kwargs)
+        self._interfaces.append(iff)
         return iff
 
     def remove_interface(self, *, name: str) -> None:
@@ -426,13 +427,11 @@ class NetworkService(ModelElement):
                              interfaces=[self_iface, other_iface], ltype=LinkType.L2Path)
         except Exception:
             # do not leave a half-made peering behind
-            for iface in (self_iface, other_iface):
+            for svc, iface in ((self, self_iface), (ns, other_iface)):
                 if iface is not None:
                     self.topo.graph_model.remove_cp_and_links(node_id=iface.node_id)
+                    svc._interfaces = list(filter((lambda x: x.node_id != iface.node_id), svc._interfaces))
             raise
-        # update interface lists
-        self._interfaces.append(self_iface)
-        ns._interfaces.append(other_iface)
 
     def unpeer(self, ns) -> None:
         """
